@@ -973,7 +973,7 @@ def selftest(tier, seed):
     subprocess.run([exe, "writer-hist", "--out", base + "_w.ndjson", "--seed", str(seed), "--count", "60"], cwd=vlib.ROOT, check=True,
                    stdout=subprocess.DEVNULL)
     subprocess.run([exe, "parsers", "--mode", "sched", "--parsers", "cnf,aag,btor2", "--out", base + "_p.ndjson", "--seed", str(seed),
-                    "--count", "12"], cwd=vlib.ROOT, check=True, stdout=subprocess.DEVNULL)
+                    "--count", "45"], cwd=vlib.ROOT, check=True, stdout=subprocess.DEVNULL)
 
     def first(recs, pred):
         cur = {}
@@ -1026,9 +1026,13 @@ def selftest(tier, seed):
         ("writer sink n+1", "Trace_Writer", base + "_w.ndjson", bump("n", lambda r: r.get("ev") == "sink" and r.get("kind") == "n")),
         ("contract col+1", "Trace_Contract", base + "_p.ndjson", bump("coln", lambda r: r.get("ev") == "pret" and r.get("kind") == "syntax" and not r.get("ref"))),
         ("contract drop item", "Trace_Contract", base + "_p.ndjson",
-         lambda recs: (lambda idx: None if len(idx) < 3 else recs[:idx[-1]] + recs[idx[-1] + 1:])([i for i, r in enumerate(recs) if r.get("ev") == "pret" and r.get("res") == "some"])),
+         drop(lambda r, cur: r.get("ev") == "pret" and r.get("res") == "some" and cur.get("parser") == "cnf" and not cur.get("ref")
+              and not cur.get("faulty"))),
         ("contract ln line+1", "Trace_Contract", base + "_p.ndjson", bump("line", lambda r: r.get("ev") == "ln")),
-        ("dimacs col+1", "Trace_Dimacs", base + "_p.ndjson", bump("coln", lambda r, cur: r.get("ev") == "pret" and r.get("kind") == "syntax" and cur.get("parser") == "cnf")),
+        ("dimacs error column off the token", "Trace_Dimacs", base + "_p.ndjson",
+         shift("coln", 40, lambda r, cur: r.get("ev") == "pret" and r.get("kind") == "syntax" and cur.get("parser") == "cnf")),
+        ("dimacs error line+1", "Trace_Dimacs", base + "_p.ndjson",
+         shift("linen", 1, lambda r, cur: r.get("ev") == "pret" and r.get("kind") == "syntax" and cur.get("parser") == "cnf")),
         ("aigerref error position off the token", "Trace_AigerRef", base + "_p.ndjson",
          shift("pos", 40, lambda r, cur: r.get("ev") == "gu" and not r.get("io") and cur.get("parser") == "aag" and not cur.get("faulty"))),
         ("aigerref drop item", "Trace_AigerRef", base + "_p.ndjson",
